@@ -44,6 +44,10 @@ pub trait Rule: RuleClone + Debug + Send {
         if kind == "equal" {
             if escaper.has_unprintable(&expression) {
                 format!("{rendered} (escaped{quantifier})")
+            } else if equal_quantifier.is_empty() && ends_like_modifier(&rendered) {
+                // the expression itself ends in what would be read back as a
+                // modifier: state explicitly that it is not one
+                format!("{rendered} (equal)")
             } else {
                 format!("{rendered}{equal_quantifier}")
             }
@@ -51,6 +55,21 @@ pub trait Rule: RuleClone + Debug + Send {
             format!("{rendered} ({kind}{quantifier})")
         }
     }
+}
+
+/// Whether the text ends in ` (<lowercase word><quantifier>)`, i.e. in
+/// something that parsing an expectation could take for its modifier
+fn ends_like_modifier(text: &str) -> bool {
+    let Some(start) = text.rfind(" (") else {
+        return false;
+    };
+    let Some(inner) = text[start + 2..].strip_suffix(')') else {
+        return false;
+    };
+    let inner = inner.strip_suffix(['*', '+', '?']).unwrap_or(inner);
+    inner
+        .chars()
+        .all(|ch| ch.is_ascii_lowercase() || ch == '-')
 }
 
 impl Display for Box<dyn Rule> {
